@@ -1076,11 +1076,20 @@ func (ex *Exec) next(x *ssa.Next, it *iterV) Value {
 				return TupleV{ex.tc.True, ex.tc.Const(64, uint64(i)), ex.tc.Const(32, uint64(r))}
 			}
 		}
-		b := it.str.sym[i]
-		// assumption: symbolic string bytes iterated by range are ASCII
-		ex.assume(ex.tc.Cmp(OUlt, b, ex.tc.Const(8, 0x80)), "range over symbolic string: bytes assumed ASCII")
-		it.pos++
-		return TupleV{ex.tc.True, ex.tc.Const(64, uint64(i)), ex.tc.ZExt(b, 32)}
+		// symbolic bytes: decode with the REAL unicode/utf8.DecodeRuneInString (forks on the
+		// encoding class; invalid sequences yield U+FFFD, width 1, as in Go)
+		pkg := ex.P.prog.ImportedPackage("unicode/utf8")
+		if pkg == nil || pkg.Func("DecodeRuneInString") == nil {
+			ex.unsupported("range over a symbolic string needs unicode/utf8")
+		}
+		rest := ex.mkStr(it.str.sym[i:])
+		res := ex.callFunction(pkg.Func("DecodeRuneInString"), []Value{rest}, nil, token.NoPos).(TupleV)
+		sz := ex.concretize(res[1].(*Term), true, "utf-8 sequence width")
+		if sz < 1 {
+			sz = 1
+		}
+		it.pos += int(sz)
+		return TupleV{ex.tc.True, ex.tc.Const(64, uint64(i)), res[0]}
 	}
 	if it.pos >= len(it.keys) {
 		tt := x.Type().(*types.Tuple)
